@@ -54,6 +54,18 @@ def load_copy(name, alias):
     return mod
 
 
+_FRESH_N = [0]
+
+
+def fresh_copy(mod):
+    """a new instance of an already imported repo module for a float replay: nothing that the symbolic run cached at class or
+    module level (memo tables, lazily built constants) is visible in it"""
+    _FRESH_N[0] += 1
+    name = mod.__name__
+    pkg = name.rsplit('.', 1)[0]
+    return load_copy(name, '%s._replay_%d_%s' % (pkg, _FRESH_N[0], name.rsplit('.', 1)[1]))
+
+
 def rebind(mod, replacements):
     """Injection by identity: every global of `mod` whose value *is* one of the keys of
     `replacements` (list of (object, replacement)) is rebound.  Returns the names rebound."""
